@@ -152,6 +152,15 @@ def run_spec(spec, ctx):
         info = {}
         status = "inconclusive"
         detail = str(e)
+    except Exception as e:   # a modelling gap in the spec or the executor is never a verdict
+        import traceback
+        info = {}
+        status = "inconclusive"
+        tb = traceback.extract_tb(e.__traceback__)[-1]
+        detail = "internal error: %s: %s (%s:%d)" % (type(e).__name__, str(e)[:200], os.path.basename(tb.filename), tb.lineno)
+        for ex in exe_holder.get("exes", []):
+            for nm in ("findings", "obligations"):
+                pass
     exes = exe_holder.get("exes", [])
     findings = []
     unsupported = []
@@ -2314,6 +2323,702 @@ def spec_subrender_prefix_lines(ctx, make_exe):
                      "a border line becomes prefix followed by the border (got %s)" % got)
     return {"function": f.name, "paths": total}
 
+# ----------------------------------------------------------------------------
+# SPEC: hard wrap of a word that does not fit (WrappedBlock::flush_word_hard_wrap, executed from MIR over strings
+# modelled as sequences of symbolic characters)
+# ----------------------------------------------------------------------------
+
+class VStr(VAgg):
+    """String model that also carries its characters (z3 char codes); path/fields as wrapmodel's StrModel."""
+
+    def __init__(self, chars):
+        import wrapmodel
+        w = u64(0)
+        nb = u64(0)
+        for c in chars:
+            w = w + wrapmodel.char_width(c)
+            nb = nb + _len_utf8(c)
+        VAgg.__init__(self, "StrModel", None, [VInt(z3.simplify(w), 64, False), VInt(z3.simplify(nb), 64, False)])
+        self.chars = list(chars)
+
+
+def _len_utf8(c):
+    return z3.If(z3.ULT(c, 0x80), u64(1), z3.If(z3.ULT(c, 0x800), u64(2), z3.If(z3.ULT(c, 0x10000), u64(3), u64(4))))
+
+
+HW_ALPHABET = {"a": 0x61, "e-acute": 0xe9, "wide": 0x5b57, "comb": 0x0301}
+
+
+def _run_hard_wrap(ctx, make_exe, piece_lens, frag_between, max_width):
+    import wrapmodel
+    import summaries
+    f = the(ctx.find(r"::flush_word_hard_wrap$", debug=["self", "lineleft"]), "WrappedBlock::flush_word_hard_wrap")
+    exe, m, st, ref = _wrap_setup(ctx, make_exe, "Normal", False, loop_bound=16, hard_wrap="mir")
+    # the word: pieces of symbolic characters (different tags), optionally a fragment marker between them
+    pieces = []
+    elems = []
+    allchars = []
+    for pi, n in enumerate(piece_lens):
+        cs = []
+        for k in range(n):
+            c = exe.fresh("u32", "p%dc%d" % (pi, k))
+            st.pc.append(z3.Or(*[c.e == v for v in HW_ALPHABET.values()]))
+            cs.append(c.e)
+        pieces.append(cs)
+        allchars += cs
+        if pi > 0 and frag_between:
+            elems.append(VAgg("TaggedLineElement::FragmentStart", "FragmentStart", [VOpaque("String", "frag")]))
+        ts = _agg(ctx, "TaggedString", s=VStr(cs), tag=VOpaque("T", "tag%d" % pi))
+        elems.append(VAgg("TaggedLineElement::Str", "Str", [ts]))
+    st.pc += [z3.ULE(m.width.e, u64(max_width)), m.wslen.e == 0]
+    wordw = u64(0)
+    for c in allchars:
+        wordw = wordw + wrapmodel.char_width(c)
+    blk = exe.global_cells[ref.a]
+    fields = list(blk.fields)
+    wi = m.names.index("word")
+    fields[wi] = VAgg("TaggedLine", None, [VVec(elems), VInt(wordw, 64, False), VBool(z3.BoolVal(True)), VInt(wordw, 64, False)])
+    exe.global_cells[ref.a] = VAgg("WrappedBlock", None, fields, m.names)
+    inner = summaries.summarize
+    pushed = []   # per path: recovered from the call log instead (states fork)
+
+    def sval(exe_, st_, v):
+        while isinstance(v, VRef):
+            v = exe_.deref(st_, v)
+        return v
+
+    def slice_of(exe_, st_, f_, bb_, sv, start, end):
+        """fork over the character boundaries that start / end can denote"""
+        n = len(sv.chars)
+        pref = [u64(0)]
+        for c in sv.chars:
+            pref.append(pref[-1] + _len_utf8(c))
+        outs = []
+        on_boundary = []
+        for a in range(n + 1):
+            for b in (range(a, n + 1) if end is not None else [n]):
+                cond = start == pref[a]
+                if end is not None:
+                    cond = z3.And(cond, end == pref[b])
+                on_boundary.append(cond)
+                if exe_.feasible(st_, cond):
+                    s3 = st_.clone()
+                    s3.pc.append(cond)
+                    outs.append((s3, VRef("val", VStr(sv.chars[a:b]))))
+        exe_.oblige(st_, z3.Or(*on_boundary), "panic", f_.name, bb_, "string slice index is not on a character boundary / out of range", tag="bounds")
+        return outs
+
+    def summ(exe_, st_, f_, bb_, callee, args, dest_ty):
+        c = callee.strip()
+        if re.search(r"TaggedLine::<\w+>::remove_items$", c):
+            w = sval(exe_, st_, args[0])
+            v = w.fields[0]
+            exe_.write_ref(st_, args[0], [], VAgg("TaggedLine", None, [VVec([]), VInt(u64(0), 64, False), VBool(z3.BoolVal(False)), VInt(u64(0), 64, False)]), None)
+            return [(st_, VIter("vec", v, 0))]
+        if re.search(r"TaggedString::<\w+>::width$", c):
+            ts = sval(exe_, st_, args[0])
+            return [(st_, ts.fields[ts.names.index("s")].fields[0])]
+        if re.search(r"^<String as Index<std::ops::RangeFrom<usize>>>::index$", c):
+            sv = sval(exe_, st_, args[0])
+            if isinstance(sv, VStr):
+                return slice_of(exe_, st_, f_, bb_, sv, args[1].fields[0].e, None)
+            return None
+        if re.search(r"^<String as Index<std::ops::Range<usize>>>::index$", c):
+            sv = sval(exe_, st_, args[0])
+            if isinstance(sv, VStr):
+                return slice_of(exe_, st_, f_, bb_, sv, args[1].fields[0].e, args[1].fields[1].e)
+            return None
+        if re.search(r"core::str::<impl str>::char_indices$", c):
+            sv = sval(exe_, st_, args[0])
+            if isinstance(sv, VStr):
+                items = []
+                off = u64(0)
+                for ch in sv.chars:
+                    items.append(VAgg("tuple", None, [VInt(off, 64, False), VInt(ch, 32, False)]))
+                    off = off + _len_utf8(ch)
+                return [(st_, VIter("vec", VVec(items), 0))]
+            return None
+        if re.search(r"^<CharIndices<'_> as IntoIterator>::into_iter$", c):
+            return [(st_, args[0])]
+        if re.search(r"^<CharIndices<'_> as Iterator>::next$", c):
+            it = exe_.deref(st_, args[0])
+            if it.pos < len(it.src.elems):
+                exe_.write_ref(st_, args[0], [], VIter("vec", it.src, it.pos + 1), None)
+                return [(st_, VAgg("Option::Some", "Some", [it.src.elems[it.pos]]))]
+            return [(st_, VAgg("Option::None", "None", []))]
+        if re.search(r"char::methods::<impl char>::len_utf8$", c):
+            return [(st_, VInt(_len_utf8(args[0].e), 64, False))]
+        if re.search(r"^<&str as std::convert::Into<String>>::into$", c):
+            return [(st_, sval(exe_, st_, args[0]))]
+        if re.search(r"^String::len$", c):
+            sv = sval(exe_, st_, args[0])
+            if isinstance(sv, VStr):
+                return [(st_, sv.fields[1])]
+            return None
+        return inner(exe_, st_, f_, bb_, callee, args, dest_ty)
+    summaries.summarize = summ
+    try:
+        exe.hints = [z3.ULE(m.width.e, u64(6))]
+        outs = exe.run(f.name, {1: ref}, st)
+    finally:
+        summaries.summarize = inner
+        m.uninstall()
+    return f, exe, m, ref, pieces, allchars, outs
+
+
+def _hard_wrap_posts(ctx, f, exe, m, ref, pieces, allchars, outs, label):
+    import wrapmodel
+    n_ok = 0
+    for (s2, ret) in outs:
+        if not (isinstance(ret, VAgg) and ret.variant in ("Ok", "Err")):
+            raise Inconclusive("flush_word_hard_wrap did not return a Result")
+        if ret.variant == "Err":
+            post(exe, s2, z3.Not(m.allow_overflow.e), f.name, label + ": TooNarrow only when overflow is not allowed")
+            # and only when some character cannot fit into an empty line of this width
+            toowide = z3.Or(*[z3.UGT(wrapmodel.char_width(c), m.width.e) for c in allchars])
+            post(exe, s2, toowide, f.name, label + ": TooNarrow only when a character is wider than the block")
+            continue
+        n_ok += 1
+        p = _wrap_post_state(exe, m, s2, ref)
+        post(exe, s2, z3.Implies(z3.Not(m.allow_overflow.e), z3.And(z3.ULE(p["line_len"], m.width.e), z3.ULE(p["maxlen"], m.width.e))),
+             f.name, label + ": no line is wider than the block")
+        post(exe, s2, z3.Not(p["word_nonempty"]), f.name, label + ": the word buffer is empty afterwards")
+        # every character of the word is emitted exactly once, in order
+        got = []
+        for cl in s2.calls:
+            if re.search(r"TaggedLine::<\w+>::push$", cl[0]) and cl[2] == f.name:
+                el = cl[1][1]
+                if isinstance(el, VAgg) and el.variant == "Str":
+                    sv = el.fields[0].fields[el.fields[0].names.index("s")] if el.fields[0].names else el.fields[0].fields[0]
+                    if not isinstance(sv, VStr):
+                        raise Inconclusive("pushed string not recovered")
+                    got += sv.chars
+        same = len(got) == len(allchars) and all(z3.eq(a, b) for a, b in zip(got, allchars))
+        post(exe, s2, z3.BoolVal(bool(same)), f.name, label + ": every character of the word is emitted exactly once, in order (got %d of %d)" % (len(got), len(allchars)))
+    if n_ok == 0:
+        raise Inconclusive("no successful path")
+
+
+def spec_wrap_hard_wrap(ctx, make_exe):
+    total = 0
+    for (lens, frag) in (([2], False), ([2, 2], False), ([1, 2], True)):
+        f, exe, m, ref, pieces, allchars, outs = _run_hard_wrap(ctx, make_exe, lens, frag, 1 << 20)
+        total += len(outs)
+        _hard_wrap_posts(ctx, f, exe, m, ref, pieces, allchars, outs, "hard wrap %s" % (lens,))
+    return {"function": f.name, "paths": total}
+
+
+def _replay_pieces(vals):
+    pcs = []
+    pi = 0
+    while ("p%dc0" % pi) in vals:
+        cs = []
+        k = 0
+        while ("p%dc%d" % (pi, k)) in vals:
+            cs.append(int(vals["p%dc%d" % (pi, k)]))
+            k += 1
+        pcs.append(cs)
+        pi += 1
+    v = [[len(pcs)]]
+    for cs in pcs:
+        v.append([len(cs)])
+        for c in cs:
+            v.append(le_bytes(c, 4))
+    return v
+
+
+def replay_fmt_links(fd, vals, info):
+    return {"harness": "m_fmt_links", "values": [le_bytes(int(vals.get("width", 0)), 8), [1 if vals.get("wrap_links") else 0]] + _replay_pieces(vals)}
+
+
+def replay_hard_wrap(fd, vals, info):
+    g = lambda k: int(vals.get("s." + k, 0))
+    v = [le_bytes(g("width"), 8), le_bytes(g("line_len"), 8), [1 if vals.get("s.allow_overflow") else 0]]
+    pcs = []
+    pi = 0
+    while ("p%dc0" % pi) in vals:
+        cs = []
+        k = 0
+        while ("p%dc%d" % (pi, k)) in vals:
+            cs.append(int(vals["p%dc%d" % (pi, k)]))
+            k += 1
+        pcs.append(cs)
+        pi += 1
+    v.append([len(pcs)])
+    for cs in pcs:
+        v.append([len(cs)])
+        for c in cs:
+            v.append(le_bytes(c, 4))
+    return {"harness": "m_hard_wrap", "values": v}
+
+# ----------------------------------------------------------------------------
+# SPEC: the footnote list is hard-wrapped to the width (SubRenderer::fmt_links)
+# ----------------------------------------------------------------------------
+
+def spec_fmt_links_wrap(ctx, make_exe):
+    import wrapmodel
+    import summaries
+    f = the(ctx.find(r"::fmt_links$", debug=["self", "links"]), "SubRenderer::fmt_links")
+    total = 0
+    for piece_lens in ([2], [1, 2], [2, 2]):
+        exe = make_exe(loop_bound=16, timeout_ms=20000)
+        m = wrapmodel.WrapModel(ctx, exe)     # only for its TaggedLine / char contracts
+        m.install(hard_wrap="mir")
+        st = State()
+        width = exe.fresh("usize", "width")
+        wrap_links = exe.fresh("bool", "wrap_links")
+        st.pc += [z3.ULE(width.e, u64(1 << 20))]
+        exe.hints = [z3.ULE(width.e, u64(6))]
+        pieces = []
+        allchars = []
+        for pi, n in enumerate(piece_lens):
+            cs = []
+            for k in range(n):
+                c = exe.fresh("u32", "p%dc%d" % (pi, k))
+                st.pc.append(z3.Or(*[c.e == v for v in HW_ALPHABET.values()]))
+                cs.append(c.e)
+            allchars += cs
+            pieces.append(_agg(ctx, "TaggedString", s=VStr(cs), tag=VOpaque("Annotation", "tag%d" % pi)))
+        opts = _agg(ctx, "RenderOptions", wrap_links=wrap_links)
+        sub = _agg(ctx, "SubRenderer", width=width, options=opts)
+        exe.cell_n += 1
+        cid = "cell%d" % exe.cell_n
+        exe.global_cells[cid] = sub
+        inner = summaries.summarize
+        emitted = []
+
+        def sval(exe_, st_, v):
+            while isinstance(v, VRef):
+                v = exe_.deref(st_, v)
+            return v
+
+        def summ(exe_, st_, f_, bb_, callee, args, dest_ty):
+            c = callee.strip()
+            if re.search(r"^Vec::<TaggedLine<.*>>::drain::<RangeFull>$", c):
+                return [(st_, VIter("vec", VVec([VOpaque("TaggedLine", "link_line")]), 0))]
+            if re.search(r"^<std::vec::Drain<'_, .*> as IntoIterator>::into_iter$", c):
+                return [(st_, args[0])]
+            if re.search(r"^<std::vec::Drain<'_, .*> as Iterator>::next$", c) or re.search(r"^<FilterMap<.*> as Iterator>::next$", c):
+                it = exe_.deref(st_, args[0])
+                if it.pos < len(it.src.elems):
+                    exe_.write_ref(st_, args[0], [], VIter("vec", it.src, it.pos + 1), None)
+                    return [(st_, VAgg("Option::Some", "Some", [it.src.elems[it.pos]]))]
+                return [(st_, VAgg("Option::None", "None", []))]
+            if re.search(r"TaggedLine::<.*>::into_tagged_strings$", c):
+                return [(st_, VIter("vec", VVec(pieces), 0))]
+            if re.search(r"^<FilterMap<.*> as IntoIterator>::into_iter$", c):
+                return [(st_, args[0])]
+            if re.search(r"^<String as Deref>::deref$", c):
+                return [(st_, VRef("val", sval(exe_, st_, args[0])))]
+            if re.search(r"std::str::<impl str>::replace::<char>$", c):
+                return [(st_, sval(exe_, st_, args[0]))]     # the alphabet has no newline: replace('\n', " ") is the identity
+            if re.search(r"Box::<\[.*; 1\]>::new_uninit$", c):
+                return [(st_, VOpaque("Box", exe_.fresh_name("tagbox")))]
+            if re.search(r"box_assume_init_into_vec_unsafe::<", c):
+                return [(st_, VOpaque("Vec<Annotation>", exe_.fresh_name("tagvec")))]
+            if re.search(r"^<str as UnicodeWidthStr>::width$", c):
+                sv = sval(exe_, st_, args[0])
+                return [(st_, sv.fields[0])] if isinstance(sv, VStr) else None
+            if re.search(r"^String::new$", c):
+                return [(st_, VStr([]))]
+            if re.search(r"core::str::<impl str>::chars$", c):
+                sv = sval(exe_, st_, args[0])
+                if isinstance(sv, VStr):
+                    return [(st_, VIter("vec", VVec([VInt(ch, 32, False) for ch in sv.chars]), 0))]
+                return None
+            if re.search(r"^String::is_empty$", c):
+                sv = sval(exe_, st_, args[0])
+                return [(st_, VBool(z3.BoolVal(len(sv.chars) == 0)))] if isinstance(sv, VStr) else None
+            if re.search(r"^String::push$", c):
+                sv = sval(exe_, st_, args[0])
+                if isinstance(sv, VStr):
+                    exe_.write_ref(st_, args[0], [], VStr(sv.chars + [args[1].e]), None)
+                    return [(st_, VUnit())]
+                return None
+            if re.search(r"^<String as ToOwned>::to_owned$", c):
+                return [(st_, sval(exe_, st_, args[0]))]
+            if re.search(r"TaggedLine::<.*>::new$", c):
+                return [(st_, wrapmodel.tagged_line(exe_, exe_.fresh_name("newline"), VInt(u64(0), 64, False), VBool(z3.BoolVal(False)), VInt(u64(0), 64, False)))]
+            if re.search(r"TaggedLine::<.*>::push_str$", c):
+                ts = args[1]
+                sv = ts.fields[ts.names.index("s")] if ts.names else ts.fields[0]
+                if not isinstance(sv, VStr):
+                    raise PathEnd("push_str of a string that is not a model")
+                l = exe_.deref(st_, args[0])
+                v, ln, ne, gw = l.fields
+                exe_.write_ref(st_, args[0], [], VAgg("TaggedLine", None, [v, VInt(ln.e + sv.fields[0].e, 64, False),
+                                                                             VBool(z3.Or(ne.e, z3.BoolVal(len(sv.chars) > 0))),
+                                                                             VInt(gw.e + sv.fields[0].e, 64, False)]), None)
+                return [(st_, VUnit())]
+            if re.search(r"SubRenderer::<D>::add_line$", c):
+                return [(st_, VUnit())]
+            return inner(exe_, st_, f_, bb_, callee, args, dest_ty)
+        summaries.summarize = summ
+        try:
+            outs = exe.run(f.name, {1: VRef("cell", cid), 2: VOpaque("Vec<TaggedLine>", "links")}, st)
+        finally:
+            summaries.summarize = inner
+            m.uninstall()
+        total += len(outs)
+        fits_all = z3.And(*[z3.ULE(wrapmodel.char_width(c), width.e) for c in allchars])
+        if not outs:
+            raise Inconclusive("no path returned")
+        for (s2, ret) in outs:
+            lines = []
+            got = []
+            for cl in s2.calls:
+                if re.search(r"SubRenderer::<D>::add_line$", cl[0]) and cl[2] == f.name:
+                    rl = cl[1][1]
+                    tl = rl.fields[0] if isinstance(rl, VAgg) and rl.variant == "Text" else None
+                    if not (isinstance(tl, VAgg) and tl.path == "TaggedLine"):
+                        raise Inconclusive("emitted line not recovered")
+                    lines.append(tl.fields[1].e)
+                if re.search(r"TaggedLine::<.*>::push_str$", cl[0]) and cl[2] == f.name:
+                    ts = cl[1][1]
+                    sv = ts.fields[ts.names.index("s")] if ts.names else ts.fields[0]
+                    got += sv.chars
+            post(exe, s2, z3.BoolVal(len(lines) >= 1), f.name, "fmt_links emits the footnote line")
+            for ln in lines:
+                post(exe, s2, z3.Implies(z3.And(wrap_links.e, fits_all), z3.ULE(ln, width.e)), f.name,
+                     "fmt_links %s: with wrap_links no footnote line is wider than the width" % (piece_lens,))
+            same = len(got) == len(allchars) and all(z3.eq(a, b) for a, b in zip(got, allchars))
+            post(exe, s2, z3.BoolVal(bool(same)), f.name, "fmt_links %s: every character of the footnote is emitted once, in order" % (piece_lens,))
+            post(exe, s2, z3.Implies(z3.Not(wrap_links.e), z3.BoolVal(len(lines) == 1)), f.name, "fmt_links: without wrap_links one line per footnote")
+    return {"function": f.name, "paths": total}
+
+# ----------------------------------------------------------------------------
+# SPEC: the unicode strikeout filter strikes exactly the characters that occupy columns
+# ----------------------------------------------------------------------------
+
+def _vstr_summaries(inner):
+    """std::string operations over VStr (strings as sequences of symbolic characters)."""
+    def sval(exe_, st_, v):
+        while isinstance(v, VRef):
+            v = exe_.deref(st_, v)
+        return v
+
+    def summ(exe_, st_, f_, bb_, callee, args, dest_ty):
+        c = callee.strip()
+        if re.search(r"^String::new$", c):
+            return [(st_, VStr([]))]
+        if re.search(r"^<String as Deref>::deref$", c):
+            sv = sval(exe_, st_, args[0])
+            return [(st_, VRef("val", sv))] if isinstance(sv, VStr) else inner(exe_, st_, f_, bb_, callee, args, dest_ty)
+        if re.search(r"core::str::<impl str>::chars$", c):
+            sv = sval(exe_, st_, args[0])
+            if isinstance(sv, VStr):
+                return [(st_, VIter("vec", VVec([VInt(ch, 32, False) for ch in sv.chars]), 0))]
+        if re.search(r"^String::push$", c):
+            sv = sval(exe_, st_, args[0])
+            if isinstance(sv, VStr):
+                exe_.write_ref(st_, args[0], [], VStr(sv.chars + [args[1].e]), None)
+                return [(st_, VUnit())]
+        if re.search(r"^String::is_empty$", c):
+            sv = sval(exe_, st_, args[0])
+            if isinstance(sv, VStr):
+                return [(st_, VBool(z3.BoolVal(len(sv.chars) == 0)))]
+        return inner(exe_, st_, f_, bb_, callee, args, dest_ty)
+    return summ
+
+
+def spec_strikeout_filter(ctx, make_exe):
+    import wrapmodel
+    import summaries
+    f = the(ctx.find(r"^filter_text_strikeout$"), "filter_text_strikeout")
+    exe = make_exe(loop_bound=8)
+    m = wrapmodel.WrapModel(ctx, exe)
+    m.install(hard_wrap="mir")
+    st = State()
+    cs = []
+    for k in range(3):
+        c = exe.fresh("u32", "c%d" % k)
+        st.pc.append(z3.Or(*[c.e == v for v in list(HW_ALPHABET.values()) + [0x20]]))
+        cs.append(c.e)
+    inner = summaries.summarize
+    summaries.summarize = _vstr_summaries(inner)
+    try:
+        outs = exe.run(f.name, {1: VRef("val", VStr(cs))}, st)
+    finally:
+        summaries.summarize = inner
+        m.uninstall()
+    if not outs:
+        raise Inconclusive("no path returned")
+    for (s2, ret) in outs:
+        if not (isinstance(ret, VAgg) and ret.variant == "Some" and isinstance(ret.fields[0], VStr)):
+            raise Inconclusive("result of filter_text_strikeout not recovered")
+        got = ret.fields[0].chars
+        # expected on this path: each character, followed by U+0336 when it has a width
+        i = 0
+        ok_shape = True
+        conds = []
+        for c in cs:
+            if i >= len(got) or not z3.eq(z3.simplify(got[i]), z3.simplify(c)):
+                ok_shape = False
+                break
+            i += 1
+            struck = i < len(got) and z3.is_bv_value(z3.simplify(got[i])) and z3.simplify(got[i]).as_long() == 0x336
+            conds.append(z3.UGT(wrapmodel.char_width(c), u64(0)) == z3.BoolVal(bool(struck)))
+            if struck:
+                i += 1
+        ok_shape = ok_shape and i == len(got)
+        post(exe, s2, z3.BoolVal(bool(ok_shape)), f.name, "strikeout keeps every character, in order, adding only U+0336 marks")
+        if ok_shape:
+            post(exe, s2, z3.And(*conds), f.name, "exactly the characters that occupy columns are struck through")
+    return {"function": f.name, "paths": len(outs)}
+
+# ----------------------------------------------------------------------------
+# SPEC: side-by-side table cells are joined column by column (SubRenderer::append_columns_with_borders)
+# ----------------------------------------------------------------------------
+
+def _border_model(name, width):
+    return VAgg("BorderModel", None, [VOpaque("id", name), width])
+
+
+def _run_columns(ctx, make_exe, shapes, prev_kind, collapse_v):
+    """shapes: per column a string over {T, L} (text line / border line), e.g. ["T", "LTL"]."""
+    import wrapmodel
+    import summaries
+    f = the(ctx.find(r"::append_columns_with_borders$", debug=["self", "cols", "collapse"]), "SubRenderer::append_columns_with_borders")
+    clos = [g for g in ctx.find(r"::append_columns_with_borders::\{closure#\d+\}") ]
+    exe = make_exe(loop_bound=24, timeout_ms=20000)
+    m = wrapmodel.WrapModel(ctx, exe)
+    m.install(hard_wrap="mir")
+    st = State()
+    n = len(shapes)
+    ws = [exe.fresh("usize", "w%d" % i) for i in range(n)]
+    collapse = VBool(z3.BoolVal(bool(collapse_v)))
+    draw = exe.fresh("bool", "draw_borders")
+    for w in ws:
+        st.pc += [z3.UGE(w.e, u64(1)), z3.ULE(w.e, u64(1 << 20))]
+    exe.hints = [z3.ULE(w.e, u64(6)) for w in ws]
+    cols = []
+    col_lines = {}
+    for i, shape in enumerate(shapes):
+        lines = []
+        for j, k in enumerate(shape):
+            if k == "T":
+                ln = exe.fresh("usize", "c%dl%d.len" % (i, j))
+                st.pc.append(z3.ULE(ln.e, ws[i].e))        # a cell's lines are not wider than the cell (C02 for the cell)
+                tl = wrapmodel.tagged_line(exe, "c%dl%d" % (i, j), ln, VBool(ln.e != 0), ln)
+                lines.append(VAgg("RenderLine::Text", "Text", [tl]))
+            else:
+                bw = exe.fresh("usize", "c%dl%d.bw" % (i, j))
+                st.pc.append(z3.ULE(bw.e, ws[i].e))
+                lines.append(VAgg("RenderLine::Line", "Line", [_border_model("c%dl%d" % (i, j), bw)]))
+        col_lines["col%d" % i] = lines
+        cols.append(_agg(ctx, "SubRenderer", width=ws[i], decorator=VOpaque("D", "col%d" % i)))
+    opts = _agg(ctx, "RenderOptions", draw_borders=draw)
+    selfv = _agg(ctx, "SubRenderer", options=opts, lines=VOpaque("LinkedList", "self.lines"), ann_stack=VOpaque("Vec<Annotation>", "ann"))
+    exe.cell_n += 1
+    cid = "cell%d" % exe.cell_n
+    exe.global_cells[cid] = selfv
+    prevw = exe.fresh("usize", "prev.bw")
+    exe.cell_n += 1
+    pid = "cell%d" % exe.cell_n
+    if prev_kind == "border":
+        exe.global_cells[pid] = VAgg("RenderLine::Line", "Line", [_border_model("prev", prevw)])
+    elif prev_kind == "text":
+        exe.global_cells[pid] = VAgg("RenderLine::Text", "Text", [wrapmodel.tagged_line(exe, "prevtext", prevw, VBool(z3.BoolVal(True)), prevw)])
+    inner = summaries.summarize
+    i_dec = ctx.field("SubRenderer", "decorator")
+
+    def sval(exe_, st_, v):
+        while isinstance(v, VRef):
+            v = exe_.deref(st_, v)
+        return v
+
+    def bwidth(b):
+        if not (isinstance(b, VAgg) and b.path == "BorderModel"):
+            raise PathEnd("border that is not a model: %r" % (b,))
+        return b.fields[1]
+
+    def summ(exe_, st_, f_, bb_, callee, args, dest_ty):
+        c = callee.strip()
+        if re.search(r"SubRenderer::<D>::flush_wrapping$", c):
+            return [(st_, VAgg("Result::Ok", "Ok", [VUnit()]))]
+        if re.search(r"^<I as IntoIterator>::into_iter$", c):
+            return [(st_, VIter("vec", args[0], 0))]
+        if re.search(r"SubRenderer::<D>::into_lines$", c):
+            sub = sval(exe_, st_, args[0])
+            name = sub.fields[i_dec].name
+            return [(st_, VAgg("Result::Ok", "Ok", [VVec(col_lines[name])]))]
+        if re.search(r"^<LinkedList<.*> as IntoIterator>::into_iter$", c):
+            return [(st_, VIter("vec", args[0], 0))]
+        if re.search(r"TaggedLine::<.*>::pad_to$", c):
+            l = sval(exe_, st_, args[0])
+            v, ln, ne, gw = l.fields
+            w = args[1]
+            nl = z3.If(z3.UGT(w.e, ln.e), w.e, ln.e)
+            exe_.write_ref(st_, args[0], [], VAgg("TaggedLine", None, [v, VInt(nl, 64, False), VBool(z3.Or(ne.e, z3.UGT(w.e, ln.e))), VInt(nl, 64, False)]), None)
+            return [(st_, VUnit())]
+        if re.search(r"BorderHoriz::<.*>::stretch_to$", c):
+            b = sval(exe_, st_, args[0])
+            w = args[1]
+            exe_.write_ref(st_, args[0], [], VAgg("BorderModel", None, [b.fields[0], VInt(z3.If(z3.UGT(w.e, bwidth(b).e), w.e, bwidth(b).e), 64, False)]), None)
+            return [(st_, VUnit())]
+        if re.search(r"BorderHoriz::<.*>::new$", c):
+            return [(st_, _border_model("next", args[0]))]
+        if re.search(r"LinkedList::<.*>::back_mut$", c):
+            if prev_kind == "none":
+                return [(st_, VAgg("Option::None", "None", []))]
+            return [(st_, VAgg("Option::Some", "Some", [VRef("cell", pid)]))]
+        if re.search(r"BorderHoriz::<.*>::(join_below|join_above|merge_from_below|merge_from_above)$", c):
+            # snapshot reference arguments now: the locals they point to are reused by the next iteration
+            if st_.calls and len(args) >= 3:
+                nm, av, fn_, bb2 = st_.calls[-1]
+                st_.calls[-1] = (nm, [av[0], sval(exe_, st_, av[1])] + list(av[2:]), fn_, bb2)
+            return [(st_, VUnit())]
+        if re.search(r"BorderHoriz::<.*>::to_vertical_lines_above$", c):
+            b = sval(exe_, st_, args[0])
+            return [(st_, wrapmodel.str_model(bwidth(b), bwidth(b)))]
+        if re.search(r"BorderHoriz::<.*>::to_string$", c):
+            b = sval(exe_, st_, args[0])
+            return [(st_, wrapmodel.str_model(bwidth(b), bwidth(b)))]
+        if re.search(r"SubRenderer::<D>::add_line$", c):
+            return [(st_, VUnit())]
+        if re.search(r"^<std::ops::Range<usize> as Iterator>::map::<char, ", c):
+            return [(st_, VIter("map", args[0], 0, args[1] if len(args) > 1 else None))]
+        if re.search(r"^<std::iter::Map<std::ops::Range<usize>, .*> as Iterator>::collect::<String>$", c):
+            it = sval(exe_, st_, args[0])
+            rng = sval(exe_, st_, it.src) if isinstance(it, VIter) else None
+            if isinstance(rng, VAgg) and len(rng.fields) == 2:
+                nsp = VInt(rng.fields[1].e - rng.fields[0].e, 64, False)
+                return [(st_, wrapmodel.str_model(nsp, nsp))]
+            return None
+        if re.search(r"^<String as Index<std::ops::Range<usize>>>::index$", c):
+            sv = sval(exe_, st_, args[0])
+            a, b = args[1].fields[0], args[1].fields[1]
+            if isinstance(sv, VAgg) and sv.path == "StrModel":
+                exe_.oblige(st_, z3.And(z3.ULE(a.e, b.e), z3.ULE(b.e, sv.fields[1].e)), "panic", f_.name, bb_, "string slice out of range", tag="bounds")
+                nn = VInt(b.e - a.e, 64, False)
+                return [(st_, VRef("val", wrapmodel.str_model(nn, nn)))]
+            return None
+        if re.search(r"^<str as ToString>::to_string$", c):
+            return [(st_, sval(exe_, st_, args[0]))]
+        if re.search(r"^<Option<String> as Clone>::clone$", c):
+            return [(st_, sval(exe_, st_, args[0]))]
+        return inner(exe_, st_, f_, bb_, callee, args, dest_ty)
+    summaries.summarize = summ
+    try:
+        outs = exe.run(f.name, {1: VRef("cell", cid), 2: VVec(cols), 3: collapse}, st)
+    finally:
+        summaries.summarize = inner
+        m.uninstall()
+    return f, exe, ws, collapse, draw, prevw, outs
+
+
+def _columns_posts(exe, f, outs, shapes, prev_kind, collapse_v, ws, draw, label):
+    n = len(shapes)
+    tot = u64(n - 1)
+    for w in ws:
+        tot = tot + w.e
+    pos = []
+    acc = u64(0)
+    for i in range(n):
+        pos.append(acc)
+        acc = acc + ws[i].e + 1
+    # what the function is documented to do, simulated on the shapes
+    remaining = []
+    want_below = []
+    want_above = []
+    for i, shape in enumerate(shapes):
+        lines = [(k, "c%dl%d" % (i, j)) for j, k in enumerate(shape)]
+        if collapse_v:
+            if lines and lines[0][0] == "L":
+                want_below.append((lines[0][1], pos[i]))
+                lines.pop(0)
+            if lines and lines[-1][0] == "L":
+                want_above.append((lines[-1][1], pos[i]))
+                lines.pop()
+        remaining.append(lines)
+    height = max([len(r) for r in remaining] + [0])
+
+    def bid(exe_, s2, v):
+        while isinstance(v, VRef):
+            v = exe_.deref(s2, v)
+        return v.fields[0].name if isinstance(v, VAgg) and v.path == "BorderModel" else None
+    for (s2, ret) in outs:
+        post(exe, s2, z3.BoolVal(isinstance(ret, VAgg) and ret.variant == "Ok"), f.name, label + ": succeeds")
+        calls = [c for c in s2.calls if c[2] == f.name]
+        news = [c for c in calls if re.search(r"BorderHoriz::<.*>::new$", c[0])]
+        post(exe, s2, z3.BoolVal(len(news) == 1), f.name, label + ": one closing rule is built")
+        if news:
+            post(exe, s2, news[0][1][0].e == tot, f.name, label + ": the closing rule is as wide as the columns plus their separators")
+        jb = [c[1][1].e for c in calls if re.search(r"::join_below$", c[0])]
+        ja = [c[1][1].e for c in calls if re.search(r"::join_above$", c[0])]
+        want_j = [pos[i] + ws[i].e for i in range(n - 1)] if prev_kind == "border" else []
+        for got, nm in ((jb, "the rule above"), (ja, "the closing rule")):
+            post(exe, s2, z3.BoolVal(len(got) == len(want_j)), f.name, label + ": %s gets one junction per column boundary (got %d)" % (nm, len(got)))
+            if len(got) == len(want_j):
+                for g, w_ in zip(got, want_j):
+                    post(exe, s2, g == w_, f.name, label + ": junctions of %s sit at the column boundaries" % nm)
+        mb = [(bid(exe, s2, c[1][1]), c[1][2].e) for c in calls if re.search(r"::merge_from_below$", c[0])]
+        ma = [(bid(exe, s2, c[1][1]), c[1][2].e) for c in calls if re.search(r"::merge_from_above$", c[0])]
+        for got, want, nm in ((mb, want_below, "top"), (ma, want_above, "bottom")):
+            post(exe, s2, z3.BoolVal([g[0] for g in got] == [w_[0] for w_ in want]), f.name,
+                 label + ": nested %s borders merged: %s (want %s)" % (nm, [g[0] for g in got], [w_[0] for w_ in want]))
+            if [g[0] for g in got] == [w_[0] for w_ in want]:
+                for g, w_ in zip(got, want):
+                    post(exe, s2, g[1] == w_[1], f.name, label + ": a nested %s border is merged at its column's offset" % nm)
+        # rows
+        rows = [[]]
+        emitted = []
+        for c in calls:
+            if re.search(r"SubRenderer::<D>::add_line$", c[0]):
+                emitted.append(c[1][1])
+                rows.append([])
+            elif re.search(r"TaggedLine::<.*>::consume$", c[0]):
+                v = c[1][1]
+                while isinstance(v, VRef):
+                    v = exe.deref(s2, v)
+                rows[-1].append(("text", v.fields[0].name if isinstance(v, VAgg) and isinstance(v.fields[0], VOpaque) else "?"))
+            elif re.search(r"TaggedLine::<.*>::push$", c[0]):
+                el = c[1][1]
+                sv = el.fields[0].fields[0] if isinstance(el, VAgg) and el.variant == "Str" else None
+                rows[-1].append(("str", sv.fields[0].e if isinstance(sv, VAgg) and sv.path == "StrModel" else None))
+            elif re.search(r"TaggedLine::<.*>::push_char$", c[0]):
+                rows[-1].append(("sep", None))
+        rows = rows[:-1] if rows and not rows[-1] else rows
+        text_lines = [e for e in emitted if isinstance(e, VAgg) and e.variant == "Text"]
+        rule_lines = [e for e in emitted if isinstance(e, VAgg) and e.variant == "Line"]
+        post(exe, s2, z3.BoolVal(len(text_lines) == height), f.name, label + ": one output line per line of the tallest cell (%d, want %d)" % (len(text_lines), height))
+        post(exe, s2, z3.BoolVal(len(rule_lines) == 1) == draw.e, f.name, label + ": the closing rule is emitted iff borders are drawn")
+        for r, tl in enumerate(text_lines):
+            ln = tl.fields[0].fields[1].e
+            post(exe, s2, ln == tot, f.name, label + ": every joined line is exactly as wide as the table row")
+        for r, row in enumerate(rows[:height]):
+            ok = len(row) == 2 * n - 1 and all(row[k][0] == "sep" for k in range(1, len(row), 2))
+            post(exe, s2, z3.BoolVal(ok), f.name, label + ": row %d is cell, separator, cell, ... (got %s)" % (r, [x[0] for x in row]))
+            if not ok:
+                continue
+            for i in range(n):
+                kind, val = row[2 * i]
+                if r < len(remaining[i]) and remaining[i][r][0] == "T":
+                    post(exe, s2, z3.BoolVal(kind == "text" and val == remaining[i][r][1] + ".v"), f.name,
+                         label + ": row %d column %d shows that cell's line %d (got %s %s)" % (r, i, r, kind, val))
+                else:
+                    post(exe, s2, z3.BoolVal(kind == "str" and val is not None), f.name, label + ": row %d column %d is filled" % (r, i))
+                    if kind == "str" and val is not None:
+                        post(exe, s2, val == ws[i].e, f.name, label + ": filler / nested rule in row %d column %d has the column's width" % (r, i))
+
+
+def spec_columns_join(ctx, make_exe):
+    total = 0
+    two = ["", "T", "TT", "TL", "LTL", "LT"]
+    scen = [(["T"], "border"), (["TT"], "none"), (["LTL"], "border")]
+    for a_ in two:
+        for b_ in two:
+            scen.append(([a_, b_], "border"))
+    scen += [(["T", "TT"], "none"), (["TT", "T"], "text"), (["T", "LTL", "TT"], "border"), (["TL", "T", "LT"], "border"), (["TT", "", "T"], "none")]
+    for (shapes, prev_kind) in scen:
+        for collapse_v in (True, False):
+            f, exe, ws, collapse, draw, prevw, outs = _run_columns(ctx, make_exe, shapes, prev_kind, collapse_v)
+            total += len(outs)
+            if not outs:
+                raise Inconclusive("no path returned for %s" % (shapes,))
+            _columns_posts(exe, f, outs, shapes, prev_kind, collapse_v, ws, draw, "columns %s%s" % ("|".join(shapes), " collapsing" if collapse_v else ""))
+    return {"function": f.name, "paths": total, "scenarios": 2 * len(scen)}
+
 
 ALL = [
     Spec("table_col_width", ["C06", "C02", "C01"], spec_table_col_width,
@@ -2452,6 +3157,27 @@ ALL = [
          assumptions=["TaggedLine::{insert_front,push,new} and the string conversions are observed, not executed (t4_* decide insert_front on the real code)",
                       "the pairing of lines with prefixes (zip) is std"],
          replay=lambda fd, vals, info: {"harness": "m_prefix_blank_lines", "values": [[0]]}),
+    Spec("wrap_hard_wrap", ["C02", "C04", "C03", "C01"], spec_wrap_hard_wrap,
+         functions=["WrappedBlock::flush_word_hard_wrap", "WrappedBlock::force_flush_line"],
+         bounds="word of 1-2 pieces of 1-2 characters from {a, e-acute, a wide CJK character, a combining mark}, optional fragment marker between; any block width <= 2^20, any line position",
+         assumptions=["TaggedLine contracts of section 9.1; strings are sequences of symbolic characters; slicing forks over character boundaries"],
+         replay=replay_hard_wrap),
+    Spec("fmt_links_wrap", ["C02", "C08"], spec_fmt_links_wrap,
+         functions=["SubRenderer::fmt_links"],
+         bounds="one footnote line of 1-2 tagged pieces of 1-2 characters from {a, e-acute, a wide CJK character, a combining mark}; any width <= 2^20 not smaller than the widest character",
+         assumptions=["strings are sequences of symbolic characters; TaggedLine::push_str adds the display width (t4_tagged_push_str decides that on the real code)",
+                      "str::replace of newline is the identity on the alphabet; add_line is observed, not executed"],
+         replay=replay_fmt_links),
+    Spec("strikeout_filter", ["C15"], spec_strikeout_filter,
+         functions=["filter_text_strikeout"],
+         bounds="three characters from {a, space, e-acute, a wide CJK character, a combining mark}",
+         assumptions=["strings are sequences of symbolic characters; UnicodeWidthChar::width is the width model"],
+         replay=lambda fd, vals, info: {"harness": "m_strike_affix", "values": [[0]]}),
+    Spec("columns_join", ["C05", "C06", "C02"], spec_columns_join,
+         functions=["SubRenderer::append_columns_with_borders"],
+         bounds="2-3 columns of 0-3 lines each (text lines and border lines), widths 1..2^20",
+         assumptions=["TaggedLine / BorderHoriz operations are contracts (decided on the real code by the t3_* and t4_* Kani harnesses)"],
+         replay=lambda fd, vals, info: {"harness": "m_columns", "values": [[0]]}),
     Spec("link_footnotes", ["C08"], spec_link_footnotes,
          functions=["TextRenderer::start_link", "TextRenderer::end_link"],
          bounds="0-2 links already recorded; footnote flag symbolic",
